@@ -171,3 +171,61 @@ func main() {
 	}
 	return res
 }
+
+type kfProgram struct {
+	id   string
+	prog *gen.Program
+}
+
+// knownFindingPrograms witness defects that are recorded in
+// known_findings.json rather than repaired.
+func knownFindingPrograms(firstID int) []kfProgram {
+	srcs := []struct{ id, src string }{
+		// K02: no automatic semicolon insertion - a statement that begins with '(' continues the previous line
+		{"K02", `package main
+
+import "fmt"
+
+type T struct {
+	N int
+}
+
+func (t *T) Show() {
+	fmt.Println("T", t.N)
+}
+
+func main() {
+	n := 4
+	(&T{N: n}).Show()
+	fmt.Println(n)
+}
+`},
+		// K03: an index expression with side effects is evaluated twice in a compound assignment
+		{"K03", `package main
+
+import "fmt"
+
+var calls = 0
+
+func next() int {
+	calls++
+	return calls
+}
+
+func main() {
+	m := map[int]int{}
+	m[next()] += 10
+	s := []int{0, 0, 0, 0}
+	s[next()]++
+	fmt.Println(m, s, calls)
+}
+`},
+	}
+	var res []kfProgram
+	for i, k := range srcs {
+		id := firstID + i
+		dir := fmt.Sprintf("ref/c%06d/cmd%06d", id, id)
+		res = append(res, kfProgram{k.id, &gen.Program{Files: map[string]string{dir + "/main.go": k.src}, MainDir: dir, Profile: "known-finding"}})
+	}
+	return res
+}
